@@ -258,6 +258,11 @@ def initDecomp (files : Files) (fill : UInt8) (x : X) (fileOffset : Int) : Excep
   let inoffset := wrapI64 (wrapI64 (x.hdr.sec0Offset + content.offset) + offset)
   let doffset := wrapI32 (entry * Int.ofNat lzxFRAME_SIZE)
   let remaining := wrapI64 (length - doffset)
+  -- since 02def81: a file at or beyond the end of the stream is refused (`d->inoffset/offset/length` are set by then)
+  if remaining ≤ 0 then
+    let x := { x with d := { x.d with inoffset := inoffset, offset := doffset, length := length }, error := .decrunch }
+    .ok (.decrunch, x)
+  else
   -- `lzxd_init(&self->d->sys, infh, self, window_bits, reset_interval / LZX_FRAME_SIZE, 4096, length, 0)`
   -- returns NULL for a negative reset interval or output length (its own argument check)
   let state : Option (Lzx.St Rd) :=
